@@ -832,3 +832,101 @@ func ruleBoundAsPolygon(c *Ctx) {
 	}
 	c.R.Floor("K5-bound-as-polygon", n, 7)
 }
+
+// K6 — dispatch delegation.  In a package whose exported functions are named
+// after the geometry kinds (clip, tilecover, project, smartclip), the generic
+// Geometry function must hand a value of dynamic kind K to the package's
+// function K: not to another kind's function through a conversion (a Ring
+// covered as a LineString loses its interior).
+func ruleDispatchDelegation(pkgs []string, floor int) ruleFunc {
+	return func(c *Ctx) {
+		p := c.P
+		c.R.Rule("K6: in the generic Geometry function of a package that has one function per kind, the arm for dynamic kind K passes the value to the function named K (when it exists) and to no other kind's function, directly or through a conversion")
+		kindNames := map[string]bool{}
+		for _, k := range p.Kinds {
+			kindNames[k.Obj().Name()] = true
+		}
+		n := 0
+		for _, pk := range pkgs {
+			fn := p.funcByShortKey(pk + ".Geometry")
+			if fn == nil {
+				c.R.Unknown("K6-dispatch-delegation", pk+".Geometry", "", "not found")
+				continue
+			}
+			has := map[string]bool{}
+			for name := range kindNames {
+				if f := p.funcByShortKey(pk + "." + name); f != nil {
+					has[name] = true
+				}
+			}
+			for _, b := range fn.Blocks {
+				for _, in := range b.Instrs {
+					ta, ok := in.(*ssa.TypeAssert)
+					if !ok || !ta.CommaOk || !p.IsGeometry(ta.X.Type()) {
+						continue
+					}
+					k := p.KindOf(ta.AssertedType)
+					if k == "" {
+						continue
+					}
+					// values derived from the asserted value by extraction / conversion
+					derived := map[ssa.Value]bool{}
+					var grow func(v ssa.Value)
+					grow = func(v ssa.Value) {
+						if derived[v] {
+							return
+						}
+						derived[v] = true
+						for _, r := range *v.Referrers() {
+							switch x := r.(type) {
+							case *ssa.Extract:
+								if x.Index == 0 {
+									grow(x)
+								}
+							case *ssa.Convert:
+								grow(x)
+							case *ssa.ChangeType:
+								grow(x)
+							}
+						}
+					}
+					grow(ta)
+					called := map[string]string{}
+					for v := range derived {
+						for _, r := range *v.Referrers() {
+							call, ok := r.(*ssa.Call)
+							if !ok {
+								continue
+							}
+							cal := call.Call.StaticCallee()
+							if cal == nil || cal.Pkg != fn.Pkg || !kindNames[cal.Name()] {
+								continue
+							}
+							called[cal.Name()] = p.InstrPos(call)
+						}
+					}
+					if !has[k] && len(called) == 0 {
+						continue // no function of that name: the arm handles the kind itself
+					}
+					n++
+					cons := fmt.Sprintf("%s.Geometry#%s", pk, k)
+					bad := ""
+					for name, pos := range called {
+						if name != k {
+							bad += fmt.Sprintf(" a %s is handed to %s.%s at %s;", k, pk, name, pos)
+						}
+					}
+					if has[k] && called[k] == "" && bad != "" {
+						bad += fmt.Sprintf(" %s.%s is never called for it;", pk, k)
+					}
+					if bad != "" {
+						c.R.Bad("K6-dispatch-delegation", cons, p.InstrPos(ta), strings.TrimSpace(bad)+" the generic entry no longer returns what the kind's own function returns")
+					} else {
+						c.R.OK("K6-dispatch-delegation", cons, p.InstrPos(ta), "delegates to its own kind's function")
+					}
+				}
+			}
+		}
+		c.R.Floor("K6-dispatch-delegation", n, floor)
+	}
+}
